@@ -28,7 +28,7 @@ ASSUMPTIONS = ["virtual_sitesn is generated with function 1/2 and equal masses (
 CASE_TIMEOUT = 240
 WALL = {"quick": 1200, "thorough": 10800}
 MAX_TIMEOUTS = {"quick": 1, "thorough": 20}
-REQUIRED = {"residue_classes": 600, "isomorphism_pairs_checked": 2000, "same_name_different_content": 60,
+REQUIRED = {"residue_classes": 600, "isomorphism_pairs_checked": 500, "same_name_different_content": 60,
             "virtual_sites_checked": 300, "vs_kinds": 7, "optimiser_successes_rechecked": 300, "impropers_rechecked": 60,
             "user_templates": 40, "user_volumes": 60, "equivariance_checks": 500, "size_independence_checks": 25}
 CAP = {"opt": []}
